@@ -186,7 +186,8 @@ class World:
             self.failed_before = True
         if op in ("as_expression", "deriv_as_expression") or d.get("early"):
             self.simplified_before = True
-        if self.mode == "c09":
+        if self.mode == "c09" or op.startswith("deriv_"):
+            # C10 too: a persistent derivative object must keep answering like a freshly built one
             b = lib.call(fresh_fn)
             n2 = self.warn.n
             self._compare(d, a, b, budget_hit=(n1 > n0 or n2 > n1))
@@ -363,8 +364,13 @@ class World:
         """C10: the pooled object must evaluate like a freshly built copy."""
         i = d["i"]
         P = dec_point(d["point"])
-        a = lib.call(lambda: self.objs[i].at(Point(**P)))
-        b = lib.call(lambda: fresh(self.models[i]).at(Point(**P)))
+        if d.get("bare"):
+            number = next(iter(P.values()), 1.5)
+            a = lib.call(lambda: self.objs[i].at(number))
+            b = lib.call(lambda: fresh(self.models[i]).at(number))
+        else:
+            a = lib.call(lambda: self.objs[i].at(Point(**P)))
+            b = lib.call(lambda: fresh(self.models[i]).at(Point(**P)))
         if lib.OVF in (a.kind, b.kind):
             return None
         if a.key() != b.key() and not (a.kind == lib.EXC and b.kind == lib.EXC):
